@@ -212,7 +212,7 @@ type Flags struct {
 type BootArgs struct {
 	Flags
 	RootCN, SignCN         string
-	RootSerial, SignSerial int64 // 0 = command default
+	RootSerial, SignSerial int64    // 0 = command default
 	SignSerialBig          *big.Int // overrides SignSerial (serials beyond 64 bits)
 }
 
@@ -220,7 +220,7 @@ type BootArgs struct {
 type RotArgs struct {
 	Flags
 	SignCN         string
-	SerialOverride int64 // 0 = predecessor + 1
+	SerialOverride int64    // 0 = predecessor + 1
 	SerialBig      *big.Int // overrides SerialOverride (serials beyond 64 bits)
 }
 
